@@ -50,6 +50,19 @@ def retry_loop_rule(ck, u, eng, fname, paths, base_param, total_param):
     exits = [p for p in paths if p.end == 'return' and p.loops and not transfer_calls(p)]
     if not any(p.loops for p in paths):
         return ck.broken('C17.b', fname, where, 'no retry loop recognised')
+    # every path that moves octets goes through the retry loop: a path around it hands the driver's raw answer
+    # (0, -EINTR, -EAGAIN, a short count) to a caller that was promised all N octets or a hard error
+    for p in paths:
+        if p.loops or p.end != 'return':
+            continue
+        calls = [e for e in p.effects if e.kind in ('call', 'icall')]
+        rv = strip_cast(p.ret) if p.ret is not None else None
+        if calls or not (rv is not None and sym.is_c(rv) and rv[1] < 0):
+            ck.violation('C17.c', fname + ':bypass', cast.where(calls[0].node) if calls else where,
+                         'the path {%s} returns %s without entering the retry loop%s: zero-length returns and -EINTR/-EAGAIN of the driver reach the caller, who was promised exactly %s octets'
+                         % ('; '.join(fmt(c) for c in p.cond_terms())[:160], fmt(p.ret) if p.ret else None,
+                            ' (it calls %s)' % calls[0].name if calls else '', total_param))
+            return
     if not iters:
         return ck.violation('C17.b', fname + ':never-runs', where,
                             'the transfer loop can never be entered (its condition is false for every count): the function reports %s octets moved without calling the driver' % total_param)
